@@ -63,7 +63,7 @@ type c11Env struct {
 	arm     []string        // per caller: the hold point it is armed for ("" = none)
 	holdCh  []chan struct{} // per caller: released by unhold
 	held    atomic.Int32    // callers parked at a hold point (they own pe.lock)
-	bgArm   string          // the background flusher is armed for this hold point: "fremoved" (inside the RemoveAll of its tick / quit Flush) | "stop" (ticker.Stop of a quitting flusher: after the quit decision, before the deferred Flush)
+	bgArm   string          // the background flusher is armed for this hold point: "since" (inside timex.Since of shallQuit: after the empty tick Flush, before the quit decision) | "fremoved" (inside the RemoveAll of its tick / quit Flush) | "stop" (ticker.Stop of a quitting flusher: after the quit decision, before the deferred Flush)
 	mut     []int           // first tasks of batches whose slice showed OTHER tasks when the (gated) callback looked again at its end
 	bgCh    chan struct{}
 	bholder int             // caller that holds pe.wgBarrier for the harness (-1 = nobody)
@@ -183,6 +183,26 @@ func (e *c11Env) holdAt(point string) {
 			e.held.Add(-1)
 		}
 	}
+}
+
+// holdAtSince is called on every read of the virtual clock (timex.VerifSetNowHook): a background flusher inside
+// timex.Since(last) of shallQuit - after its EMPTY tick Flush, before the idle check and the lock of the quit
+// decision - parks here when armed (`hold bg since`).
+func (e *c11Env) holdAtSince() {
+	e.mu.Lock()
+	armed := e.bgArm == "since"
+	e.mu.Unlock()
+	if !armed {
+		return
+	}
+	buf := make([]byte, 4096)
+	st := string(buf[:runtime.Stack(buf, false)])
+	if !strings.Contains(st, ").shallQuit(") || !strings.Contains(st, "backgroundFlush.func1") {
+		return
+	}
+	e.held.Add(1)
+	c11HoldPark(e.bgCh)
+	e.held.Add(-1)
 }
 
 // holdAtStop is called by ticker.Stop(), i.e. by a background flusher that has decided to quit and runs its
@@ -1101,6 +1121,66 @@ func c11Outstanding(r *verifh.Rng) verifh.Section {
 	return verifh.Section{Cfg: c11Cfg(kind, max, 10, p, 1, 0), Ops: ops}
 }
 
+// c11SinceWindow generates one section of the class "Adds / Flush / Wait arrive between the flusher's EMPTY tick Flush
+// and its quit decision": the flusher is parked inside timex.Since(last) of shallQuit (`hold bg since`: a hook on the
+// virtual clock), i.e. it has found nothing to flush and has not yet looked at the idle bound, the lock or inflight.
+// What is added now sits in the container while the flusher decides: if it quits, ONLY its deferred Flush takes those
+// tasks (guarded was set, so no new flusher was started); a batch handed over now (inflight > 0) must keep it alive.
+func c11SinceWindow(r *verifh.Rng) verifh.Section {
+	kind := r.PickS("bulk", "bulk", "chunk")
+	max := r.Pick(2, 2, 3, 4)
+	if kind == "chunk" {
+		max = r.Pick(3, 5)
+	}
+	iv := r.Pick(1, 10, 1000)
+	p := r.Range(2, 3)
+	gate := r.Pick(0, 0, 1)
+	id := 1
+	t := func() int { x := c11T(id, 1); id++; return x }
+	var ops []string
+	x0 := t()
+	ops = append(ops, fmt.Sprintf("add 0 %d", x0), "tick")
+	if gate == 1 {
+		ops = append(ops, fmt.Sprintf("rel %d ok", x0))
+	}
+	for i := r.Pick(0, 1, 2); i > 0; i-- {
+		ops = append(ops, "tick")
+	}
+	// around the idle bound (past it: the flusher will decide to quit unless a batch is on its way)
+	ops = append(ops, fmt.Sprintf("t+ %d", r.Pick(10*iv+1, 10*iv+1, 10*iv+1, 11*iv+1, 10*iv, 1)), "hold bg since", "tick")
+	var firsts []int
+	n := r.Pick(1, 1, max-1, max-1, max, max+1)
+	for i := 0; i < n; i++ {
+		x := t()
+		if i%max == 0 {
+			firsts = append(firsts, x)
+		}
+		ops = append(ops, fmt.Sprintf("add %d %d", r.Intn(p), x))
+	}
+	if r.Chance(1, 5) {
+		ops = append(ops, fmt.Sprintf("%s %d", r.PickS("flush", "wait"), r.Intn(p)))
+	}
+	if r.Chance(1, 4) {
+		ops = append(ops, fmt.Sprintf("t+ %d", r.Pick(1, 10*iv+1)))
+	}
+	ops = append(ops, "unhold bg")
+	if gate == 1 {
+		for _, f := range firsts {
+			if r.Chance(2, 3) {
+				ops = append(ops, fmt.Sprintf("rel %d ok", f))
+			}
+		}
+	}
+	switch r.Intn(4) {
+	case 0:
+		ops = append(ops, "tick")
+	case 1:
+		ops = append(ops, fmt.Sprintf("add %d %d", r.Intn(p), t()))
+	}
+	ops = append(ops, "drain")
+	return verifh.Section{Cfg: c11Cfg(kind, max, iv, p, gate, 0), Ops: ops}
+}
+
 func c11NonNeg(x int) int {
 	if x < 0 {
 		return 0
@@ -1158,6 +1238,9 @@ func c11Gen(r *verifh.Rng) []verifh.Section {
 	}
 	for i := verifh.Scale(16, 300); i > 0; i-- {
 		secs = append(secs, c11Outstanding(r))
+	}
+	for i := verifh.Scale(16, 300); i > 0; i-- {
+		secs = append(secs, c11SinceWindow(r))
 	}
 	nsec := verifh.Scale(60, 900)
 	for i := 0; i < nsec; i++ {
@@ -1249,7 +1332,7 @@ func c11Gen(r *verifh.Rng) []verifh.Section {
 				ops = append(ops, fmt.Sprintf("hold %d %s", w, r.PickS("full", "removed", "notfull", "fremoved")))
 				armed[w] = true
 			case x < 85:
-				ops = append(ops, "hold bg "+r.PickS("fremoved", "fremoved", "stop"))
+				ops = append(ops, "hold bg "+r.PickS("fremoved", "fremoved", "stop", "since"))
 				armed[p] = true
 			case x < 88:
 				ops = append(ops, fmt.Sprintf("unhold %d", w))
@@ -1303,6 +1386,7 @@ func TestVerifC11(t *testing.T) {
 		max := cfg.Int("max", 2)
 		kind := cfg.Str("kind", "bulk")
 		timex.VerifSetNow(time.Duration(1000000))
+		timex.VerifSetNowHook(e.holdAtSince)
 		var addFn func(x int)
 		switch kind {
 		case "chunk":
@@ -1395,7 +1479,7 @@ func TestVerifC11(t *testing.T) {
 			case "hold":
 				if op[1] == "bg" {
 					// arm the background flusher: it parks inside the RemoveAll of its next tick / quit Flush
-					if op[2] != "fremoved" && op[2] != "stop" {
+					if op[2] != "fremoved" && op[2] != "stop" && op[2] != "since" {
 						return "bad-op"
 					}
 					if e.quiesce(self) == nil {
@@ -1550,6 +1634,7 @@ func TestVerifC11(t *testing.T) {
 			}
 			e.dead = false
 			e.reap(self)
+			timex.VerifSetNowHook(nil)
 			timex.VerifClockOff()
 		}
 		return step, done
